@@ -95,6 +95,16 @@ where
             });
         }
 
+        // how an existing adjacency entry is updated follows the dedupe policy, so that the
+        // weight the algorithms traverse is the weight of the edge(s) actually stored
+        let adjacency_update = match (edge_already_exists, self.specs.multi_edges) {
+            (false, _) => AdjacencyUpdate::Push,
+            (true, true) => AdjacencyUpdate::KeepMinimum,
+            (true, false) => match self.specs.edge_dedupe_strategy {
+                EdgeDedupeStrategy::KeepLast => AdjacencyUpdate::Overwrite,
+                _ => AdjacencyUpdate::Untouched,
+            },
+        };
         // if undirected, order the edge as that it can be easily queried for
         let ordered = match self.specs.directed {
             false => edge.clone().ordered().into(),
@@ -124,7 +134,7 @@ where
             ordered_edge_u,
             ordered_edge_v,
             edge.weight,
-            edge_already_exists,
+            adjacency_update,
         );
 
         // add to predecessors
@@ -143,7 +153,7 @@ where
                     ordered_edge_v,
                     ordered_edge_u,
                     edge.weight,
-                    edge_already_exists,
+                    adjacency_update,
                 );
             }
             false => {
@@ -160,7 +170,7 @@ where
                     ordered_edge_v,
                     ordered_edge_u,
                     edge.weight,
-                    edge_already_exists,
+                    adjacency_update,
                 );
             }
         }
@@ -465,10 +475,13 @@ fn add_to_adjacency_vec(
     u_node_index: usize,
     v_node_index: usize,
     weight: f64,
-    edge_already_exists: bool,
+    update: AdjacencyUpdate,
 ) {
-    match edge_already_exists {
-        true => {
+    match update {
+        AdjacencyUpdate::Push => {
+            adjacency_vec[u_node_index].push(AdjacentNode::new(v_node_index, weight))
+        }
+        AdjacencyUpdate::KeepMinimum => {
             let index = adjacency_vec[u_node_index]
                 .iter()
                 .position(|succ| succ.node_index == v_node_index)
@@ -477,8 +490,29 @@ fn add_to_adjacency_vec(
                 adjacency_vec[u_node_index][index] = AdjacentNode::new(v_node_index, weight);
             }
         }
-        false => adjacency_vec[u_node_index].push(AdjacentNode::new(v_node_index, weight)),
+        AdjacencyUpdate::Overwrite => {
+            for adj in adjacency_vec[u_node_index]
+                .iter_mut()
+                .filter(|adj| adj.node_index == v_node_index)
+            {
+                adj.weight = weight;
+            }
+        }
+        AdjacencyUpdate::Untouched => {}
     }
+}
+
+/// What `add_to_adjacency_vec` does with the entry for a pair of nodes.
+#[derive(Clone, Copy)]
+enum AdjacencyUpdate {
+    /// no edge between the pair is stored yet: append an entry
+    Push,
+    /// multi-edge graph: the entry holds the minimum weight of the parallel edges
+    KeepMinimum,
+    /// the stored edge is replaced (`EdgeDedupeStrategy::KeepLast`): so is the entry's weight
+    Overwrite,
+    /// the new edge is discarded (`EdgeDedupeStrategy::KeepFirst`): the entry stays as it is
+    Untouched,
 }
 
 #[cfg(test)]
